@@ -136,7 +136,13 @@ func (t *Topic) procPresReq(fromUserID, what string, wantReply bool) string {
 		reqReply = true
 		what = ""
 	default:
-		// All other notifications are not processed here
+		// All other notifications are not processed here, except that user agent changes of a contact whose
+		// notifications this user has disabled (no 'P' on this side) or dropped are not wanted.
+		if what == "ua" && t.cat == types.TopicCatMe {
+			if psd, ok := t.perSubs[fromUserID]; !ok || !psd.enabled {
+				return ""
+			}
+		}
 		return what
 	}
 
